@@ -39,8 +39,12 @@ for d in sorted(glob.glob("/verif/seeded/*/meta.json")):
     m = json.load(open(d))
     note = " ".join(m.get("needs_to_manifest", "").split())
     note = re.sub(r"[|]", "/", note)[:260]
+    su = m.get("suite", {})
+    suite = "whole suite: pass" if su.get("exit") == 0 else ("whole suite: not run" if not su else "whole suite: " + str(su.get("not_passing_after_rerun")))
+    if su.get("flaky_passed_on_rerun"):
+        suite += " (load-sensitive subprocess tests passed when re-run alone)"
     caught = ", ".join(f"{c}: {'**caught**' if v['caught'] else 'missed'}" for c, v in m.get("checks", {}).items())
-    out.append(f"| {m['id']} | {m['property']} | {'yes' if m.get('confirmed') else 'NO'} | {note} | {caught} |")
+    out.append(f"| {m['id']} | {m['property']} | {'yes' if m.get('confirmed') else 'NO'}; {suite} | {note} | {caught} |")
 text = "\n".join(out) + "\n"
 p = "/verif/DESIGN.md"
 s = open(p).read()
